@@ -150,7 +150,7 @@ class Ctx:
         self.violation_count += 1
         self.extra.setdefault("violations_by_key", {})
         self.extra["violations_by_key"][key] = self.extra["violations_by_key"].get(key, 0) + 1
-        if len(self.violations) < MAX_VIOLATION_RECORDS:
+        if sum(1 for v in self.violations if v["key"] == key) < 2 and len(self.violations) < MAX_VIOLATION_RECORDS:
             self.violations.append({"key": key, "what": what, "case": jsonable(case)})
         return True
 
@@ -189,7 +189,7 @@ class Ctx:
             if len(self.samples) < MAX_SAMPLES:
                 self.samples.append(s)
         for v in p["violations"]:
-            if len(self.violations) < MAX_VIOLATION_RECORDS:
+            if sum(1 for x in self.violations if x["key"] == v["key"]) < 2 and len(self.violations) < MAX_VIOLATION_RECORDS:
                 self.violations.append(v)
         self.violation_count += p["violation_count"]
         for k, v in p["known_hits"].items():
@@ -280,8 +280,12 @@ def finish(ctx: Ctx, mod) -> int:
         evidence["inconclusive_because"] = ctx.inconclusive[:10]
 
     code = 0
+    os.makedirs(REPLAY_DIR, exist_ok=True)
+    if not ctx.replay:
+        for old in os.listdir(REPLAY_DIR):
+            if old.startswith(ctx.pid + "-") and old.endswith(".json"):
+                os.unlink(os.path.join(REPLAY_DIR, old))
     if ctx.violation_count:
-        os.makedirs(REPLAY_DIR, exist_ok=True)
         seen_keys = set()
         for v in ctx.violations:
             if v["key"] in seen_keys and len(seen_keys) > 0:
